@@ -98,6 +98,8 @@ Framing(ev) ==
 OnEncode(ev) ==
   LET guarded == ev.x = "rand" /\ hdr.b # 2     \* hdr.b = 2 marks unguarded (out-of-domain) generators
       v == If(ev.oc = "panic", V("C08", "ProducerPanic", ev))
+           \* an in-domain batch that is not encoded at all is not round-tripped either (C01-C04: "every batch decoded")
+           \cup If(ev.oc = "panic" /\ hdr.b = 0, Vs(RTProps, "ValidInputNotEncoded", ev))
            \cup If(ev.flag = 0, V("C15", "InputModified", ev))
            \cup If(ev.oc = "error" /\ hdr.b = 0, Vs(RTProps, "ValidInputRefused", ev))    \* mode 0: every input is inside the domain
   IN /\ lastIn' = ev.in
